@@ -223,41 +223,22 @@ def run(ctx: Ctx) -> None:
         if len(atoms) == 1 and atoms[0][1] and _cmp_is(atoms[0][0], kname, '<', 0):
             ok = True
     ctx.check(ok, 'AFF-EXPDECAY', g, 'negative step raises', 'step check', 'the schedule does not reject exactly the negative steps', g.node)
-    # returned value by symbolic evaluation with case split on k == 0
-    def assume(s, test, pol):  # noqa: ANN001, ANN202
-        if _cmp_is(test, kname, '==', 0):
-            if pol:
-                return s.set(kname, Poly.const(0))
-            return s.set('__nz', Poly.const(1))
-        if _cmp_is(test, kname, '<', 0):
-            return None if pol else s
-        return s
-    cb = symexec.SymCB(lambda c: None, None, None, assume)
-    final, exits = symexec.run(g, cb, {kname: Poly.atom('k')})
-    rets = [(s, r) for s, r in exits if isinstance(r, ast.Return)]
-    if not rets:
-        raise AnalysisIncomplete('schedule function has no return')
-    # The walker joins the k==0 / k!=0 branches; evaluate the return under both cases explicitly
-    for case, kval, expect in (('k = 0', Poly.const(1), None), ('k > 0', Poly.atom('k'), None)):
-        pass
-    for s, r in rets:
-        v = cb.value(s, r.value)
-        kv = s.get(kname)
-        txt = v.canon()
-        # accepted normal forms: min(cap, 1 - 1/K) where K is phi(1|k) (k reset to 1 on the zero branch) or max(k,1)
-        okv = False
-        one_minus = lambda K: (Poly.const(1) - K.inverse()).canon()  # noqa: E731
-        for K in (Poly.atom('phi(1|k)'), Poly.atom('max(1,k)'), Poly.atom('max(k,1)')):
-            cands = {f'min({",".join(sorted([capname, one_minus(K)]))})'}
-            if txt in cands:
-                okv = True
-        ctx.check(okv, 'AFF-EXPDECAY', g, f'returns min(1 - 1/max(k,1), {capname})', norm(r),
-                  f'the schedule returns {txt} (with k := {kv.canon() if kv else "k"} at step 0); specified: min(1 - 1/max(k,1), {capname})', r)
-    # step 0 handled: k == 0 -> 1
-    zero = [n for n in p.nodes(g) if isinstance(n, ast.If) and _cmp_is(n.test, kname, '==', 0)]
-    okz = any(len(n.body) == 1 and isinstance(n.body[0], ast.Assign) and norm(n.body[0]) == f'{kname} = 1' for n in zero) or \
-        any('max(' in norm(r.value) for _s, r in rets)
-    ctx.check(okz, 'AFF-EXPDECAY', g, 'step 0 is treated as step 1', 'zero step', 'step 0 is not mapped to 1 before dividing', g.node)
+    # returned value by symbolic evaluation, once per case of the step domain (k = 0, k >= 1); tests and
+    # min/max/conditional expressions are decided by the case facts, so every way of writing max(k, 1) agrees
+    from kfv.terms import Facts
+    cases = (('k = 0', {kname: Poly.const(0)}, Facts({}), Poly.const(0)),
+             ('k >= 1', {kname: Poly.atom('k')}, Facts({'k': 1}), Poly.const(1) - Poly.atom('k').inverse()))
+    for case, init, facts, expect in cases:
+        cb = symexec.SymCB(lambda c: None, None, None, None, facts)
+        final, exits = symexec.run(g, cb, dict(init))
+        rets = [(s, r) for s, r in exits if isinstance(r, ast.Return)]
+        if not rets:
+            raise AnalysisIncomplete(f'schedule function has no return in case {case}')
+        want = f'min({",".join(sorted([capname, expect.canon()]))})'
+        for s, r in rets:
+            txt = cb.value(s, r.value).canon()
+            ctx.check(txt == want, 'AFF-EXPDECAY', g, f'case {case}: returns {want}', f'{case}: {norm(r)}',
+                      f'for {case} the schedule returns {txt}; specified: min(1 - 1/max(k,1), {capname}) = {want}', r)
 
 
 def _cmp_is(t: ast.expr, name: str, op: str, const: int) -> bool:
